@@ -139,6 +139,9 @@ def gen_ruleset(rng, with_markov=None, max_bases=4, max_len=5, name="T"):
     # Markov level probabilities
     levels = rng.sample(range(0, 8), rng.randint(1, 4))
     lps = gen_probs(rng, len(levels), False)
+    if len(lps) >= 2 and rng.random() < 0.5:
+        # the trainer commonly writes several levels with the same probability (0.0)
+        lps[-1] = lps[-2] = rng.choice([0.0, lps[-2]])
     rs["omen_prob"] = list(zip([str(l) for l in levels], lps))
     return rs
 
